@@ -30,6 +30,11 @@ class InjectedSolverFailure(RuntimeError):
     """Raised by SimControl.  A RuntimeError, as clingo's own failures are."""
 
 
+class InjectedMemoryFailure(MemoryError):
+    """The other way clingo fails (std::bad_alloc surfaces as MemoryError): not a
+    RuntimeError, so the `except RuntimeError` absorbers of biobalm do not catch it."""
+
+
 class WorkBudgetExceeded(BaseException):
     """Raised from the monitoring callback.  BaseException so that no `except
     RuntimeError` / `except Exception` in the code under test can swallow it."""
@@ -52,6 +57,7 @@ class SolverState:
         self.models = 0
         self.fail_at = None  # fault point number at which to raise (1-based), or None
         self.fail_kinds = None  # restrict to kinds, e.g. {"solve"}
+        self.fail_exc = "runtime"  # or "memory"
         self.fired = []  # (point, kind) of injected failures
         self.reorder_rng = None  # random.Random or None
         self.reordered = 0
@@ -73,6 +79,8 @@ class SolverState:
         if self.fail_at is not None and self.points == self.fail_at:
             if self.fail_kinds is None or kind in self.fail_kinds:
                 self.fired.append((self.points, kind))
+                if self.fail_exc == "memory":
+                    raise InjectedMemoryFailure(f"injected solver failure #{self.points} ({kind}, bad_alloc)")
                 raise InjectedSolverFailure(f"injected solver failure #{self.points} ({kind})")
 
 
